@@ -439,6 +439,11 @@ fn fmt_results(v: &[Result<u64, String>]) -> String {
 
 /// process entry points: `rngsim c19run <mode>` / `rngsim alone <i>`; spec JSON on stdin
 pub fn proc_main(mode: &str, arg: &str) -> i32 {
+    // a child must not outlive the worker that spawned it (a worker stopped by its watchdog would
+    // otherwise leave a spinning child behind): die with the parent
+    unsafe {
+        libc::prctl(libc::PR_SET_PDEATHSIG, libc::SIGKILL);
+    }
     let mut txt = String::new();
     std::io::Read::read_to_string(&mut std::io::stdin(), &mut txt).expect("stdin");
     let spec: Spec = serde_json::from_str(&txt).expect("spec");
